@@ -12,3 +12,8 @@ CLAIMS["C05"] = {
     "note": "Windows exist only where hook points exist (atomic steps of push/clear_with/data_with); orderings weaker than x86-TSO are visible only in the Miri leg (2-3 threads, tens of ops); crossbeam-epoch is trusted.",
     "technique": "runtime monitoring: offline interval/exactly-once checker over stamped unique-value histories; directed gate + random-hold hook schedules; ASan/LSan and Miri legs",
 }
+CLAIMS["C13"] = {
+    "text": "Exploration: tens of thousands (quick) to millions (thorough) of operations through randomly composed Prefix/Filter/Router/Fanout trees; every delivery to every leaf recorder (name, labels, metadata, unit, description, handle updates incl. record_many) is compared with a reference implementation of the four layer semantics and their composition. Held = no mismatch in the operations observed.",
+    "note": "Trusts the reference semantics written from the property text (ASCII case-insensitivity; longest-prefix; later duplicate route wins); mixed masks other than single kinds/ALL are outside the quantifier (the builder panics on them by design).",
+    "technique": "runtime monitoring: logging recorder doubles beneath generated layer stacks, compared against an executable reference model per operation",
+}
